@@ -507,6 +507,20 @@ def main():
     chk.cov["poll_callbacks_observed"] = ncb
     chk.cov["ebadf_callbacks_observed"] = nbad
     chk.cov["epoll_pwait_snapshots_compared"] = sum(1 for toks in tokl for t in toks if t[0] == "P")
+    nnotif = 0
+    for toks in tokl:
+        for t in toks:
+            if t[0] == "P":
+                for fd, ev in parse_list(t.split("~")[0][2:-1].split("|")[2], 2):
+                    if ev & POLLERR and ev & POLLPRI:
+                        nnotif += 1
+    chk.cov["notification_events_observed(POLLERR|POLLPRI)"] = nnotif
+    if nnotif == 0:
+        chk.assumptions.append("kernel notification file (/proc/sys/kernel/hostname in a private UTS namespace) "
+                               "not available: the POLLERR|POLLPRI path of uv__poll_io was not exercised")
+        print("note: C14 could not use a kernel notification file (unshare(CLONE_NEWUTS) refused?); "
+              "POLLERR|POLLPRI path not exercised")
+    chk.cov["foreign_open_attempts"] = sum(1 for toks in tokl for t in toks if t[0] == "y")
     chk.cov["cases_with_ring"] = sum(1 for c in cases if c.startswith("1"))
     chk.cov["cases_without_ring"] = sum(1 for c in cases if c.startswith("0"))
     chk.cov["cases_strict_discipline"] = sum(1 for c in cases if c.split()[1] == "1")
